@@ -156,8 +156,9 @@ CLAIMED = {
               "value (later_importance_wins). The token-level model of parse_keywords (keyword tests in their order, "
               "arguments popped, greedy numeric arguments of FILL/TRCL, LAT validation, missing values) is compared "
               "with the code on random option lists; every generated LIKE deck is converted as written and expanded, "
-              "and the outputs must be identical. Not proved: the token→item grouping commutes with concatenation "
-              "(correspondence only); the array form of FILL is outside the model."),
+              "and the outputs must be identical. The token-level reading is a state machine over "
+              "the option tokens and is proved to commute with apply_but whenever the BUT options begin with a keyword "
+              "(grouping_commutes_with_but, like_but_tokens). The array form of FILL is outside the model."),
         design_ref='§8 C15'),
     'C16': dict(
         technique='Lean 4 proof (decision logic of the boundary-condition writer on the model) + model↔code correspondence + locus check of the designated surface in the written file',
